@@ -37,6 +37,23 @@ fn inputs_for(spec: &Spec, class: Class, n: usize, len: usize, rng: &mut Rng) ->
     }
 }
 
+/// One inner view in four is not fresh when the wrapper is constructed over it: it has already been
+/// given 1..2n+2 values (so its last() reports a value before the wrapper's first update), and one in
+/// sixteen is a Constant leaf (which reports its value from construction).  A wrapper still sees
+/// exactly the outputs the inner view produces from then on - nothing else.
+fn seasoned(a: Spec, class: Class, n: usize, rng: &mut Rng) -> Spec {
+    match rng.below(16) {
+        0..=3 => {
+            let k = rng.usize(1, 2 * n + 2);
+            // (strictly positive, so that the chain stays in the domain of any outer view)
+            let w = gen::positive(&gen::gen(class, n, k, rng));
+            Spec::Warm(w, Box::new(a))
+        }
+        4 => Spec::Constant(*rng.pick(&[1.5, -0.75, 3.0, 100.0])),
+        _ => a,
+    }
+}
+
 fn finite_prefix<T: Scalar>(outs: &[Option<T>]) -> usize {
     outs.iter()
         .position(|o| matches!(o, Some(v) if !v.is_finite()))
@@ -470,7 +487,8 @@ fn dispatch<T: Scalar>(cfg: &Cfg, sect: Sect, j: u64, rng: &mut Rng, out: &mut T
             let b = catalogue::bump_n(all_unary(nb)[bi], nb);
             let a = catalogue::bump_n(all_unary(na)[ai], na);
             let class = CLASSES[(r + bi + ai) % CLASSES.len()];
-            unary_pair::<T>(b, &Spec::leaf(a), class, len, rng, out);
+            let inner = seasoned(Spec::leaf(a), class, na, rng);
+            unary_pair::<T>(b, &inner, class, len, rng, out);
         }
         Sect::Bins => {
             let k = BINS[(j % 4) as usize];
@@ -516,7 +534,8 @@ fn dispatch<T: Scalar>(cfg: &Cfg, sect: Sect, j: u64, rng: &mut Rng, out: &mut T
             let b = catalogue::random_unary(rng, 1, 12);
             let a = catalogue::random_unary(rng, 1, 12);
             let class = *rng.pick(&CLASSES);
-            unary_pair::<T>(c, &Spec::un(b, Spec::leaf(a)), class, len, rng, out);
+            let inner = seasoned(Spec::un(b, Spec::leaf(a)), class, 12, rng);
+            unary_pair::<T>(c, &inner, class, len, rng, out);
         }
     }
 }
@@ -565,7 +584,7 @@ impl Monitor for C01 {
         v
     }
     fn rule(&self) -> String {
-        "trial = one tree of real views (every unary wrapper over every unary inner view at several window lengths; every combinator over every pair; PFE/EFT in view and MA slot; random triples; random trees of depth <=3 with Probe leaves) driven by one seeded input stream; at every step the chain's last() is compared (to_bits) with the stand-alone outer view fed the stand-alone inner view's outputs and with the outer view over a Script replaying those outputs; distinct = distinct (tree, input hash); non-trivial = at least one step compared".into()
+        "trial = one tree of real views (every unary wrapper over every unary inner view at several window lengths; every combinator over every pair; PFE/EFT in view and MA slot; random triples; in both of these one inner view in four has already been given values when the wrapper is constructed over it and one in sixteen is a Constant leaf; random trees of depth <=3 with Probe leaves) driven by one seeded input stream; at every step the chain's last() is compared (to_bits) with the stand-alone outer view fed the stand-alone inner view's outputs and with the outer view over a Script replaying those outputs; distinct = distinct (tree, input hash); non-trivial = at least one step compared".into()
     }
     fn assumptions(&self) -> Vec<String> {
         vec![
